@@ -654,4 +654,5 @@ func c03(r *core.Run) {
 			"the final hash is published only when the walk has passed the root", "the result channel is written although the walk has not reached the root")
 	})
 	r.Floor("C03.F1", "result sends in writeNode", nSend, 1)
+	c03More(r)
 }
